@@ -25,13 +25,29 @@ build_profile() {
 # exercised too (own target dir; RUSTFLAGS replaces the build.rustflags of .cargo/config.toml, hence the --cfg again)
 build_native() {
   [ "${VERIF_NATIVE:-1}" = 0 ] && return 0
-  local log="$H/target/build-native.log"
+  local log="$H/target/build-native.log" nat="$H/target-native"
   mkdir -p "$H/target"
-  if ! SM9VERIF_VARIANT=native RUSTFLAGS="--cfg john_yu_sm9_core_verif -C target-cpu=native" \
-       flock "$H/target/.build-native.lock" cargo build --offline --release --target-dir "$H/target-native" >"$log" 2>&1; then
+  # `-C target-cpu=native` bakes the build machine's instruction set into the binary and cargo cannot see a change of CPU:
+  # remember the CPU flags the directory was built for and start over when they differ (restored snapshot on another host)
+  local cpu; cpu=$(grep -m1 '^flags' /proc/cpuinfo 2>/dev/null | md5sum | cut -c1-16)
+  (
+    flock 9
+    if [ -d "$nat" ] && [ "$(cat "$nat/.cpu" 2>/dev/null)" != "$cpu" ]; then rm -rf "$nat"; fi
+    mkdir -p "$nat"; echo "$cpu" > "$nat/.cpu"
+    SM9VERIF_VARIANT=native RUSTFLAGS="--cfg john_yu_sm9_core_verif -C target-cpu=native" \
+      cargo build --offline --release --target-dir "$nat" >"$log" 2>&1
+  ) 9>"$H/target/.build-native.lock"
+  if [ $? -ne 0 ]; then
     echo "INCONCLUSIVE: harness build (native) failed; see $log"
     grep -E "^error" -A8 "$log" | head -40
     exit 2
+  fi
+  # the additional configuration must never turn a run on this machine into a failure: if the binary cannot even run its
+  # oracle self-test here because the process is killed (illegal instruction), this run goes without it and says so
+  "$nat/release/sm9check" selftest >/dev/null 2>&1; local st=$?
+  if [ $st -ge 126 ]; then   # killed by a signal (SIGILL = 132) or not executable - not an oracle problem (that is exit 2)
+    echo "note: native-configuration binary does not run on this machine (status $st); continuing without it (VERIF_NATIVE=0)"
+    export VERIF_NATIVE=0
   fi
 }
 
@@ -49,7 +65,8 @@ case "${1:-}" in
       if needs_dbg "$id"; then build_profile dbg; "$H/target/dbg/sm9check" replay "$2"; rc=$?; fi
     fi
     if [ $rc -eq 0 ] && [ "${VERIF_NATIVE:-1}" != 0 ]; then
-      build_native; "$H/target-native/release/sm9check" replay "$2"; rc=$?
+      build_native
+      if [ "${VERIF_NATIVE:-1}" != 0 ]; then "$H/target-native/release/sm9check" replay "$2"; rc=$?; fi
     fi
     exit $rc;;
   "") echo "usage: run.sh <ID> quick|thorough | replay <file> | build"; exit 2;;
